@@ -63,7 +63,7 @@ impl IndexData {
     # not called by the writers on the pinned tree; under contract so that an edit that starts
     # using it (instead of the parsed count) is judged rather than rejected
     Fn(HDR, 'num_items', impl='impl IndexData', subs=[ret()],
-       spec='''    ensures *self is Null ==> r == 0, *self is StringTag ==> r == 1,'''),
+       spec='''    ensures r == data_count(*self),'''),
     Raw('}\nimpl IndexHeader {\n'),
     Fn(HDR, 'write', impl='impl IndexHeader',
        subs=[('W: std::io::Write', 'W: VWrite', 1, R2), TO_BE, ret()],
